@@ -2029,6 +2029,13 @@ func (p *Parser) parsePoryswitchStatement(scriptName string) ([]ast.Statement, *
 			return nil, nil, NewParseError(startToken, fmt.Sprintf("no poryswitch case found for '%s=%s', which was specified with the '-s' option", switchCase, switchValue))
 		}
 	}
+	// The selected statements take the place of the poryswitch statement, so a 'continue'
+	// at their end must also be the last statement of the enclosing block.
+	if n := len(statements); n > 0 {
+		if continueStmt, ok := statements[n-1].(*ast.ContinueStatement); ok && p.peekToken.Type != token.RBRACE {
+			return nil, nil, NewParseError(continueStmt.Token, "'continue' must be the last statement in block scope")
+		}
+	}
 	return statements, impData, nil
 }
 
